@@ -38,6 +38,15 @@ def single_ops() -> List[tuple]:
     out.append(("add:container-value", [{"op": "add", "path": ["a", "$i"], "value": "$vc"}], {}))
     out.append(("test:container", [{"op": "test", "path": ["b"], "value": {"c": "$v", "1": ["$w"]}}], {"leaf": "nbi", "vleaf": "nbi"}))
     out.append(("test:array", [{"op": "test", "path": ["a"], "value": ["$v", "$w"]}], {"leaf": "boolint", "vleaf": "boolint", "maxn": 2}))
+    # member names differ (chosen by $i / $j from a pool), values may be null: names matter even when values are null
+    out.append(("test:names", [{"op": "add", "path": ["n"], "value": {"$ki": "$v"}}, {"op": "test", "path": ["n"], "value": {"$kj": "$w"}}],
+                {"leaf": "int", "vleaf": "nbi", "maxn": 0}))
+    out.append(("test:names-nested", [{"op": "add", "path": ["n"], "value": [{"$ki": "$v", "x": 1}]}, {"op": "test", "path": ["n"], "value": [{"$kj": "$v", "x": 1}]}],
+                {"leaf": "int", "vleaf": "nbi", "maxn": 0}))
+    # array of containers: the destination is resolved after the source has been removed
+    for t in (["a", "$i", "x"], ["a", "$i", "-"], ["a", "$i", 0], ["a", "$i", "p"]):
+        out.append((f"move:containers->{'/'.join(map(str, t))}", [{"op": "move", "from": ["a", "$j"], "path": t}], {"doc": 1, "maxn": 3}))
+        out.append((f"copy:containers->{'/'.join(map(str, t))}", [{"op": "copy", "from": ["a", "$j"], "path": t}], {"doc": 1, "maxn": 3}))
     out.append(("test:root", [{"op": "test", "path": [], "value": {"a": [], "b": {"c": "$v", "1": ["$w"]}, "1": "$w"}}], {"leaf": "boolint", "vleaf": "boolint", "maxn": 0}))
     return out
 
@@ -62,9 +71,9 @@ def plan(tier: str, seed: int) -> Plan:
         # quick: all add/remove/replace/test singles, a core of move/copy pairs
         keep = [o for o in items if not o[0].startswith(("move:", "copy:"))]
         mc = [o for o in items if o[0].startswith(("move:", "copy:"))]
-        core = [o for o in mc if any(s in o[0] for s in ("->arr-dash", "->arr-index", "->own-child", "->root", "root->", "missing->obj-new",
+        core = [o for o in mc if any(s in o[0] for s in ("containers->", "->arr-dash", "->arr-index", "->own-child", "->root", "root->", "missing->obj-new",
                                                           "arr-index->obj-new", "obj->top-new", "digit-name->obj-new"))]
-        items = keep + core[:44]
+        items = keep + core[:52]
     items += sequences(rng, 120 if thorough else 10, 2)
     if thorough:
         items += sequences(rng, 80, 3)
